@@ -359,6 +359,59 @@ func VerifH18b() {
 }
 
 // ---------------------------------------------------------------------------
+// H18g — a large Bind (C18): the unnamed portal is bound with a value of 5000
+// bytes (one symbolic byte at each end), executed and Sync'ed; the handler
+// keeps the value it was handed. A second cycle follows — another large Bind, a
+// Parse and a simple query, sizes that fit into what the first Bind occupied.
+// The kept value still equals its private copy.
+// ---------------------------------------------------------------------------
+func VerifH18g() {
+	big := make([]byte, 5000)
+	for i := range big {
+		big[i] = 'A'
+	}
+	big[0], big[4999] = nondetByte(), nondetByte()
+	var kept, keptCopy []byte
+	stmt := func(ctx context.Context, dw DataWriter, params []Parameter) error {
+		if kept == nil && len(params) == 1 {
+			kept = params[0].Value()
+			keptCopy = append([]byte{}, kept...)
+		}
+		return dw.Complete("T")
+	}
+	parse := func(ctx context.Context, query string) (PreparedStatements, error) {
+		return Prepared(NewStatement(stmt)), nil
+	}
+	later := make([]byte, 4500)
+	for i := range later {
+		later[i] = 'B'
+	}
+	sync := vMsgBytes('S', nil)
+	bind := func(v []byte) []byte {
+		return vMsgBytes('B', vCat(vCStr(nil), vCStr(nil), vU16(0), vU16(1), vU32(uint32(len(v))), v, vU16(0)))
+	}
+	input := vCat(
+		vMsgBytes('P', vCat(vCStr(nil), vCStr([]byte("q")), vU16(0))),
+		bind(big), vMsgBytes('E', vCat(vCStr(nil), vU32(0))), sync,
+		bind(later), vMsgBytes('E', vCat(vCStr(nil), vU32(0))), sync,
+		vMsgBytes('P', vCat(vCStr(nil), vCStr(later[:3000]), vU16(0))), sync,
+		vMsgBytes('Q', vCStr(later[:100])))
+	srv, err := NewServer(parse, MessageBufferSize(8192))
+	vAssert("newserver-ok", err == nil)
+	w := &vWorld{srv: srv}
+	w.conn = vNewConn(input)
+	w.ses, w.rd, w.wr = vSession(srv, w.conn)
+	w.ctx = vCtx(srv)
+	for i := 0; i < 10; i++ {
+		_, e := w.step()
+		vAssert("connection-stays-up", e == nil)
+	}
+	vAssert("value-was-kept", keptCopy != nil && len(keptCopy) == 5000)
+	vAssert("value-kept-from-a-large-bind-unchanged-after-the-next-cycles", vEqBytes(kept, keptCopy))
+	vReach("large-bind-then-more-cycles")
+}
+
+// ---------------------------------------------------------------------------
 // H18x — what a callback keeps outlives the connection it came from (C18): a
 // first connection's parser and session middleware keep the query text and the
 // client parameters they were shown (next to private copies); the connection
